@@ -30,7 +30,7 @@ DRIVER = os.path.join(OVL, "zz_verif_shutdown_test.go")
 NETSIM = os.path.join(OVL, "zz_verif_netsim_test.go")
 PKG = core.REPO
 
-READY = False
+READY = True
 PROPERTIES = ["C17"]
 
 MANIFEST = {
@@ -126,7 +126,7 @@ def config(tier, seed):
                       dict(Pools="{1,2}", MaxAct=2, LateBegin=False, pairs=[(3, 7)]),
                       dict(Pools="{2}", MaxAct=2, LateBegin=False, pairs=[(4, 7)])],
                 live=dict(Pools="{0,1,2}", MaxAct=2, LateBegin=True, pairs=nosync),
-                moments=[0, 1, 2], per_key=3, bound=BOUND)
+                moments=[0, 1, 2], per_key=3, bound=BOUND, all_pauses=True)
 
 
 def consts_of(run):
@@ -334,6 +334,7 @@ def at_matches(model_at, seen_at, fields):
 # --------------------------------------------------------------------------
 # scenarios from the model's states
 # --------------------------------------------------------------------------
+PAUSES = [2, 3, 4, 5, 6, 9]
 NOAT = dict(stop="", bm="", disp="", bch="", subh="", blkh="", cfh="", rs="")
 
 
@@ -375,6 +376,15 @@ def scenarios(g, cfg, rng, conf=None):
             for _ in range(max(1, reps)):
                 steps = [mk_act("Begin", k, mm) for (k, mm) in acts] + [mk_act("Stop", 0, m)]
                 out.append(dict(pool=pool, dial=dial, steps=steps, key=(pool, dial, acts)))
+            if m >= 1:
+                # the same moment with Stop held for 20-90 ms after one of its steps
+                # (k of the Stop act: 2 bcast, 3 wm, 4 utxo, 5 sub, 6 bm, 9 quit): every
+                # step where the rest of the client keeps moving on its own (mid-sync) or
+                # in the thorough tier, else one step chosen by the seed
+                busy = any(k == 7 for (k, mm) in acts)
+                for ps in (PAUSES if m == 1 and (busy or cfg.get("all_pauses")) else [rng.choice(PAUSES)]):
+                    steps = [mk_act("Begin", k, mm) for (k, mm) in acts] + [mk_act("Stop", ps, m)]
+                    out.append(dict(pool=pool, dial=dial, steps=steps, key=(pool, dial, acts)))
     for (pool, dial, pre, (k, m), after) in sorted(late):
         steps = [mk_act("Begin", kk, mm) for (kk, mm) in pre] + [mk_act("Stop", 0, 1)]
         if after:
@@ -560,7 +570,7 @@ def label(a):
     if op == "Ret":
         return "Ret(%s)=%s" % (KNAME.get(a.get("k"), a.get("k")), CNAME.get(a.get("cls"), a.get("cls")))
     if op == "Stop":
-        return "Stop[m%d]" % a.get("m", 0)
+        return "Stop[m%d%s]" % (a.get("m", 0), (",p%d" % a["k"]) if a.get("k") else "")
     if op == "Hang":
         at = a.get("at") or {}
         s = "Hang[stop=%s,bm=%s,rs=%s,bch=%s,cfh=%s,blkh=%s,subh=%s,disp=%s]" % tuple(
